@@ -173,6 +173,12 @@ def c16_3(ctx):
             ok = U.has_call(seq[0], "SecretKey::public_key")
         if ok and not via_pk:
             ok = any(isinstance(x, tuple) and x and x[0] == "arg" and x[1] == 0 for x in subterms(seq[0]))
+        # exact inputs: the index enters the hash unmodified, the key is self / self.public_key() -- identical on both sides
+        if ok:
+            from .. import apnf as _ap
+            ex = [str(_ap.N(x)) for x in seq]
+            want = ["('PublicKey::to_bytes', ('SecretKey::public_key', 'self'))" if via_pk else "('PublicKey::to_bytes', 'self')", "('to_be_bytes', 'idx')"]
+            ok = ex == want
         ctx.ob(R, "derive_unhardened:" + nm, ok,
                "%s::derive_unhardened hashes %s.to_bytes() || idx.to_be_bytes()" % (nm, "self.public_key()" if via_pk else "self"),
                found=[show(x)[:100] for x in seq])
